@@ -47,3 +47,6 @@ func All() []*Info {
 		modGroup("modint-ct-qr512-order", OrderQR512),
 	}
 }
+
+// Adapters: none are exercised in the constantTime build.
+func Adapters() []*Info { return nil }
